@@ -1,0 +1,65 @@
+//go:build verif
+
+package keeper
+
+// Verification hooks (build tag `verif` only): read access to the package-level oracle
+// singletons so that a harness can observe them and simulate a process restart.
+
+import (
+	"fmt"
+	"sort"
+	"strings"
+
+	"github.com/ExocoreNetwork/exocore/x/oracle/keeper/cache"
+)
+
+// VerifDumpAgc dumps the deliver-side aggregator context ("AGC:nil" when not initialised).
+func VerifDumpAgc(name func(string) string) string { return agc.VerifDump(name) }
+
+// VerifDumpAgcCheckTx dumps the CheckTx-side copy.
+func VerifDumpAgcCheckTx(name func(string) string) string { return agcCheckTx.VerifDump(name) }
+
+func VerifAgcIsNil() bool        { return agc == nil }
+func VerifAgcCheckTxIsNil() bool { return agcCheckTx == nil }
+func VerifCacheIsNil() bool      { return cs == nil }
+
+// VerifDumpCache dumps the pending (uncommitted) cache: messages, validator map, params flag.
+func VerifDumpCache(name func(string) string) string {
+	if cs == nil {
+		return "CS:nil"
+	}
+	var msgs []*cache.ItemM
+	cs.GetCache(&msgs)
+	var ms []string
+	for _, m := range msgs {
+		var ps []string
+		for _, s := range m.PSources {
+			var ds []string
+			for _, p := range s.Prices {
+				ds = append(ds, p.DetID+"="+p.Price)
+			}
+			ps = append(ps, fmt.Sprintf("%d[%s]", s.SourceID, strings.Join(ds, " ")))
+		}
+		ms = append(ms, fmt.Sprintf("%d/%s/%s", m.FeederID, name(m.Validator), strings.Join(ps, "+")))
+	}
+	vp := cache.ItemV{}
+	vUpd := cs.GetCache(vp)
+	var vs []string
+	for k, v := range vp {
+		vs = append(vs, name(k)+"="+v.String())
+	}
+	sort.Strings(vs)
+	var p cache.ItemP
+	pUpd := cs.GetCache(&p)
+	return fmt.Sprintf("CS:M[%s]|V[%s]%v|P%v,%d", strings.Join(ms, ";"), strings.Join(vs, ","), vUpd, pUpd, len(p.TokenFeeders))
+}
+
+// VerifResetAll drops every process-local oracle singleton (what a process stop does).
+func VerifResetAll() {
+	agc = nil
+	agcCheckTx = nil
+	cs = nil
+	updatedFeederIDs = nil
+}
+
+func VerifUpdatedFeederIDs() []string { return append([]string{}, updatedFeederIDs...) }
